@@ -2,6 +2,7 @@ package main
 
 import (
 	"context"
+	"errors"
 	"fmt"
 	"strings"
 
@@ -57,6 +58,9 @@ func (r *Relay) Fwd(ctx context.Context, req *[]byte, res *[]byte) error {
 	if r.free {
 		rpc.FreeContextBuffer(ctx)
 	}
+	if len(in) > 1 && in[1]&fErr != 0 {
+		return errors.New("relay refuses this one")
+	}
 	*res = out
 	return nil
 }
@@ -68,6 +72,7 @@ func relayBody(prop string) func(x *X) {
 		nested := []int{0, 10, 20, 40}[x.Choose(4)]
 		free := x.Choose(2) == 1
 		conc := x.Choose(2) == 1
+		errAt := x.Choose(3) - 1 // the call at this position is refused by the handler (after it has freed its context buffer); -1: none
 		w := newWorld()
 		// backend
 		so := srvOpts{bufSize: 64}
@@ -87,7 +92,11 @@ func relayBody(prop string) func(x *X) {
 		sizes := []int{20, 20, 12, 31}
 		var calls []*ucall
 		for i, n := range sizes {
-			c := newUcall(byte(i+1), 0, n, []int{formCall, formGo, formCallCtx, formCall}[i])
+			fl := byte(0)
+			if i == errAt {
+				fl = fErr
+			}
+			c := newUcall(byte(i+1), fl, n, []int{formCall, formGo, formCallCtx, formCall}[i])
 			c.method = name + ".Fwd"
 			calls = append(calls, c)
 		}
@@ -112,16 +121,31 @@ func relayBody(prop string) func(x *X) {
 				}
 				want = append(want, transform(mkPayload(c.tag|0x80, fl, nested))...)
 			}
+			if c.flags&fErr != 0 {
+				if !c.ret || c.err == nil || c.err.Error() != "relay refuses this one" {
+					x.Fail(prop+"/relay-error-lost", "the relayed call %d that the handler refuses: returned=%v err=%v", c.tag, c.ret, c.err)
+				}
+				continue
+			}
 			switch {
 			case !c.ret:
 				x.Fail(prop+"/relay-call-hangs", "relayed call %d never returned (service name of %d bytes, context buffer %v, nested %d, free %v)", c.tag, nameLen, shared, nested, free)
 			case c.err != nil:
 				x.Fail(prop+"/relay-call-failed", "relayed call %d failed: %v", c.tag, c.err)
 			case !eqBytes(c.reply, want):
-				if prop == "C01" {
+				if prop == "C12" {
+					x.Fail("C12/context-buffer-mode-changes-results/relay", "relayed call %d answered %x, want %x (context buffer %v, nested %d, free %v, refused call at %d)", c.tag, c.reply, want, shared, nested, free, errAt)
+				} else if prop == "C01" {
 					x.Fail("C01/reply-not-from-own-arguments/relay", "relayed call %d (service name of %d bytes, context buffer %v, nested call of %d bytes, FreeContextBuffer %v) completed without error with a reply that is not its own arguments + the nested reply: got %x want %x", c.tag, nameLen, shared, nested, free, c.reply, want)
 				} else {
 					x.Fail("C11/handler-arguments-changed/relay", "relayed call %d answered %x, its arguments were %x (context buffer %v, nested %d, free %v)", c.tag, c.reply, c.args, shared, nested, free)
+				}
+			}
+		}
+		if prop == "C12" {
+			for i, k := range r.kept {
+				if digest(k) != r.sums[i] {
+					x.Fail("C12/context-buffer-mode-changes-results/kept-arguments", "the arguments kept by the handler of request %d (%d bytes) changed after it returned (context buffer %v, nested %d, FreeContextBuffer %v, refused call at %d): with SetContextBuffer(false) they do not", i+1, len(k), shared, nested, free, errAt)
 				}
 			}
 		}
@@ -146,7 +170,7 @@ func relayBody(prop string) func(x *X) {
 				x.Fail(prop+"/nested-executions/relay", "the nested call of request %d ran %d times", c.tag, w.execs[c.tag|0x80])
 			}
 		}
-		x.Outcome("name=%d shared=%v nested=%d free=%v conc=%v kept=%d", nameLen, shared, nested, free, conc, len(r.kept))
+		x.Outcome("name=%d shared=%v nested=%d free=%v conc=%v err=%d kept=%d", nameLen, shared, nested, free, conc, errAt, len(r.kept))
 		conn.Close()
 		backend.Close()
 		vs.Quiesce()
@@ -155,5 +179,6 @@ func relayBody(prop string) func(x *X) {
 
 func init() {
 	register(&Scenario{Prop: "C01", Name: "c01/relay-with-context", Quick: []Bound{{0, 0}}, Thorough: []Bound{{1, 0}}, Body: relayBody("C01"), BudgetQ: 30, BudgetT: 200, MinHB: 1})
+	register(&Scenario{Prop: "C12", Name: "c12/relay-with-context", Quick: []Bound{{0, 0}}, Thorough: []Bound{{1, 0}}, Body: relayBody("C12"), BudgetQ: 30, BudgetT: 200, MinHB: 1})
 	register(&Scenario{Prop: "C11", Name: "c11/relay-with-context", Quick: []Bound{{0, 0}}, Thorough: []Bound{{1, 0}}, Body: relayBody("C11"), BudgetQ: 30, BudgetT: 200, MinHB: 1})
 }
